@@ -96,6 +96,8 @@ macro_rules! curve {
                 "smul" => { let p = pt(0, rg)?; let s = sc(1)?; $put(&s * &p, rg) }
                 "mula" => { let mut p = pt(0, rg)?; let s = sc(1)?; p *= &s; $put(p, rg) }
                 "mulgen" => { let s = sc(0)?; $put(P::mulgen(&s), rg) }
+                // in-place form on a receiver that already holds a value (which must be ignored)
+                "set_mulgen" => { let mut p = pt(0, rg)?; let s = sc(1)?; p.set_mulgen(&s); $put(p, rg) }
                 "mamv" => { let p = pt(0, rg)?; let u = sc(1)?; let v = sc(2)?; $put(p.mul_add_mulgen_vartime(&u, &v), rg) }
                 // same expression through the constant-time operations
                 "mamv_ref" => { let p = pt(0, rg)?; let u = sc(1)?; let v = sc(2)?; $put(p * u + P::mulgen(&v), rg) }
